@@ -171,6 +171,19 @@ func runScenariosAt(res *lp.Result, child string, indices []int, describe func(i
 func crashLine(stderr string) string {
 	lines := strings.Split(stderr, "\n")
 	msg := ""
+	if strings.Contains(stderr, "WARNING: DATA RACE") {
+		// the race detector's report: the first frame inside the library
+		for _, m := range lines {
+			if strings.Contains(m, "go-cassandra-native-protocol/") && strings.Contains(m, "(") {
+				fn := strings.TrimSpace(m)
+				if k := strings.Index(fn, "("); k > 0 {
+					fn = fn[:k]
+				}
+				return "data race between concurrent codec calls in " + fn[strings.LastIndex(fn, "/")+1:]
+			}
+		}
+		return "data race between concurrent codec calls"
+	}
 	for i, l := range lines {
 		if strings.HasPrefix(l, "panic:") || strings.HasPrefix(l, "fatal error:") {
 			msg = strings.TrimSpace(l)
